@@ -15,7 +15,7 @@ FUNCTIONS = ["solvor.knapsack.solve_knapsack", "solvor.knapsack._to_int_capacity
              "solvor.bin_pack.solve_bin_pack"]
 BOUNDS = {
     "quick": "knapsack: every instance with n<=3 items, integer weights in 0..3, capacity in 0..5, minimize on/off, plus VERIF_SEED-sampled "
-             "n=4 instances (weights 0..4, capacity 0..6) and a finite grid of decimal weights (multiples of 0.05..0.7, capacity <= 0.9); values "
+             "n=4 instances (weights 0..4, capacity 0..6) and a finite grid of decimal weights (multiples of 0.05..0.7, capacity <= 0.9) plus 4 (thorough: 47) adversarial decimal instances (k copies of capacity/k+delta, where integer scaling truncates); values "
              "unbounded non-negative Reals. bin packing: n<=4 items, the four heuristics and their aliases, sizes and capacity unbounded Reals",
     "thorough": "knapsack n<=4 exhaustively (weights 0..3, capacity 0..6), n=5 sampled, larger decimal grid; bin packing n<=5",
 }
@@ -150,6 +150,17 @@ def items(tier, rng):
         cap = rng.choice([0.3, 0.5, 0.75, 0.9, 0.35])
         out.append({"name": "knap_dec", "harness": "h_knap", "params": {"weights": ws, "capacity": cap, "minimize": False},
                     "path_wall_s": 60})
+    # adversarial decimals: k copies of capacity/k + delta -> the truncated scaled weights fit, the real ones do not
+    adv = [([0.3335] * 3, 1.0), ([0.5004, 0.5004], 1.0), ([0.5009, 0.2509, 0.2509], 1.0), ([0.1001] * 2 + [0.8003], 1.0)]
+    if not q:
+        adv += [([0.2509] * 4, 1.0), ([1666.85] * 3, 5000.5), ([0.3335, 0.3335, 0.3331], 1.0)]
+        for _ in range(40):
+            k = rng.choice([2, 3, 4])
+            d = rng.choice([0.0004, 0.0007, 0.0011, 0.00049])
+            adv.append(([round(1.0 / k + d, 5)] * k, 1.0))
+    for ws, cap in adv:
+        for mn in (False,) if q else (False, True):
+            out.append({"name": "knap_adv", "harness": "h_knap", "params": {"weights": ws, "capacity": cap, "minimize": mn}, "path_wall_s": 90})
     for n in range(1, (4 if q else 5) + 1):
         for alg in (ALGOS if n <= 3 else ALGOS[:4]):
             it = {"name": "bin_%d_%s" % (n, alg), "harness": "h_bin", "params": {"n": n, "algorithm": alg}}
